@@ -218,6 +218,14 @@ def _shapes(v1=False, seed=7):
     out.append(Shape("uiHeartbeat.signer", "uiHeartbeat",
                      {"command": "uiHeartbeat", "version": 5, "udValue": "22" * 32},
                      devcfg={"uihb": dict(hb)}))
+    # the device does not come back to the signer after the heartbeat: it shows up locked
+    # in the bootloader, or still in the heartbeat app (the documented answer is -905)
+    out.append(Shape("uiHeartbeat.back-in-bootloader", "uiHeartbeat",
+                     {"command": "uiHeartbeat", "version": 5, "udValue": "22" * 32},
+                     devcfg={"uihb": dict(hb), "hb_back_mode": 0x02}, baseline=-905))
+    out.append(Shape("uiHeartbeat.stuck-in-heartbeat", "uiHeartbeat",
+                     {"command": "uiHeartbeat", "version": 5, "udValue": "22" * 32},
+                     devcfg={"uihb": dict(hb), "hb_back_mode": 0x04}, baseline=-905))
     out.append(Shape("uiHeartbeat.hbmode", "uiHeartbeat",
                      {"command": "uiHeartbeat", "version": 5, "udValue": "22" * 32},
                      devcfg={"uihb": dict(hb)},
